@@ -71,6 +71,8 @@ def gen_cov(rng, big=True, branch_only=True):
         st = rng.choice(lines) if lines and rng.random() < 0.6 else rng.randrange(1, hi + 5)
         if funcs and rng.random() < 0.2:
             st = funcs[-1][1]                               # two functions starting on one line
+        if rng.random() < 0.08:
+            st = 0                                          # a function recorded without a source line (FN:0,name is accepted by the readers)
         funcs.append([hx(n), st, rng.random() < 0.5])
     return {"lines": lc, "branches": branches, "funcs": funcs}
 
@@ -134,6 +136,10 @@ def fixed_cases():
     twins = {"lines": [[1, 1], [2, 3], [3, 0], [4, 2], [6, 0], [7, 1]], "branches": [],
              "funcs": [[h("_ZN5ShapeC1Ev"), 2, True], [h("_ZN5ShapeC2Ev"), 2, False], [h("area"), 6, True], [h("late"), 9, False]]}
     case([[h("/w/src/shape.cpp"), h("src/shape.cpp"), twins, 8]])                    # two functions starting on one line, one past the last line
+    line0 = {"lines": [[1, 1], [2, 0], [3, 5], [5, 0]], "branches": [[3, [True, False]]],
+             "funcs": [[h("thunk"), 0, True], [h("init0"), 0, False], [h("first"), 1, True], [h("second"), 3, True]]}
+    case([[h("/w/src/l0.c"), h("src/l0.c"), line0, 6], [h("/w/src/sub/o.c"), h("src/sub/o.c"), one, 1],
+          [h("/w/lib/only0.c"), h("lib/only0.c"), {"lines": [[2, 1]], "branches": [], "funcs": [[h("ghost"), 0, True]]}, 2]])   # functions at line 0 (executed and not) next to ordinary ones
     return cs
 
 
